@@ -40,7 +40,10 @@ package keystore
 
 // ---- C01: the structure import works on is exactly what the file says: parsed from the given bytes, returned as
 // parsed, no parsed field rewritten afterwards
+// fileParsed: the keystore file handed to the running import has been parsed successfully (ghost)
+//@ ghost fileParsed bool
 //@ func GetKeystoreFromJson
+//@   sets fileParsed = err == nil
 //@   assert-at call Unmarshal parsed-from-the-file-bytes: arg0 == keysJson
 //@   assert-at return#2 the-parsed-structure-from-the-file-is-returned: result0 != nil && result1 == nil
 //@   assert-at store? Keystore.Remark no-field-from-the-file-is-rewritten: false
@@ -56,3 +59,16 @@ package keystore
 //@   assert-at store? cryptoJSON.PrivParams no-field-from-the-file-is-rewritten: false
 //@   assert-at store? cryptoJSON.CryptoKeyPubEnc no-field-from-the-file-is-rewritten: false
 //@   assert-at store? cryptoJSON.CryptoKeyPrivEnc no-field-from-the-file-is-rewritten: false
+
+// ---- C01: ImportKeystore works on the file it was given, with the wallet's own network parameters; once the file has
+// parsed only the store transaction can refuse it; in an unlocked wallet the new keystore is unlocked with the
+// passphrase it was stored under
+//@ func (*KeystoreManagerForPoC).ImportKeystore
+//@   requires import-entry: !fileParsed
+//@   assert-at call GetKeystoreFromJson the-file-given-is-the-file-parsed: arg0 == keystoreJson
+//@   assert-at return after-parsing-only-the-store-transaction-can-refuse-the-file: result2 != nil && fileParsed ==> tx_count == old(tx_count) + 1
+//@   assert-at call useKeystore unlocked-with-the-passphrase-it-was-stored-under: arg1 == acctManager.keystoreName && arg2 == newPrivPass && arg3
+//@ func (*KeystoreManagerForPoC).ImportKeystore$2
+//@   assert-at call loadAddrManager loaded-with-the-parameters-of-this-wallet: arg1 == kmc.pubPassphrase && arg2 == kmc.params
+//@ func (*KeystoreManagerForPoC).ImportKeystore$1
+//@   assert-at call allocAddrMgrNamespace stored-with-the-parameters-of-this-wallet: arg4 == kmc.pubPassphrase && arg5 == kStore && arg6 == kmc.params
